@@ -17,7 +17,7 @@ from ..arch import data_instructions
 from ..arch.arch_info import Endianness
 from ..binutils.debuginfo import DebugType, DebugLocation, DebugDb
 from ..binutils.outstream import MasterOutputStream, FunctionOutputStream
-from .irdag import SelectionGraphBuilder
+from .irdag import SelectionGraphBuilder, split_phi_edges
 from .instructionselector import InstructionSelector1
 from .instructionscheduler import InstructionScheduler
 from .registerallocator import GraphColoringRegisterAllocator
@@ -155,29 +155,8 @@ class CodeGenerator:
                     block, pos=max_block_len, newname=newname
                 )
 
-        # The phi copies for a successor are placed at the end of the
-        # predecessor block. When this block has several successors, such a
-        # copy clobbers a phi register which may still be read on the other
-        # path (for example the value of a loop phi after the loop). Give
-        # those edges a block of their own to place the copies in:
-        split_edge_nr = 1
-        for block in list(ir_function):
-            if not block.is_empty and isinstance(
-                block.last_instruction, ir.CJump
-            ):
-                for successor in block.successors:
-                    # (both targets may be the same block)
-                    if successor.phis and successor in block.successors:
-                        edge_block = ir.Block(
-                            "{}_splitted_edge_{}".format(
-                                ir_function.name, split_edge_nr
-                            )
-                        )
-                        split_edge_nr += 1
-                        ir_function.add_block(edge_block)
-                        edge_block.add_instruction(ir.Jump(successor))
-                        block.change_target(successor, edge_block)
-                        successor.replace_incoming(block, [edge_block])
+        # Give the phi copies of conditional branches a place to live:
+        split_phi_edges(ir_function)
 
         self._mark_global(output_stream, ir_function)
         output_stream.emit(SetSymbolType(ir_function.name, "func"))
